@@ -140,11 +140,14 @@ FileOf(e) == files[e.fid]
 OpenClass(e) ==
     LET f == FileOf(e) IN
     IF e.mode = "w" \/ f.kind \in {"none", "empty"} THEN "new"
-    ELSE IF f.kind \in {"written", "image"} /\ ~fault /\ ~CfgRelax /\ (f.kind = "image" => f.valid) THEN "written"
+    \* (RDWR on a block encoding is accepted by the library but no I/O works on such a handle: outside C08, only C03-level sanity is required)
+    ELSE IF f.kind \in {"written", "image"} /\ ~fault /\ ~CfgRelax /\ (f.kind = "image" => f.valid)
+            /\ ~(e.mode = "rw" /\ ~IsGranular(f.fmt)) THEN "written"
     ELSE "hostile"
 
 OpenOK(e) ==
     CASE e.mode = "rw" /\ e.ok = 0 -> OpenFailedOK(e)       \* the library decides which encodings can be opened RDWR (C08 quantifies over those)
+      [] e.route \in {"emb44", "emb4096", "pipe"} /\ e.ok = 0 -> OpenFailedOK(e)   \* C14: embedding / pipes only for the containers that support them
       [] OpenClass(e) = "new" -> IF fault \/ CfgRelax THEN (e.ok = 0 => OpenFailedOK(e)) ELSE OpenNewOK(e)
       [] OpenClass(e) = "written" -> OpenWrittenOK(e, FileOf(e))
       [] OTHER -> OpenHostileOK(e)
